@@ -17,7 +17,10 @@
     hyph_state_invariant after any text the automaton state stands for the longest suffix of the
                          text that is a prefix of a pattern; the states are exactly these prefixes
     hyph_walk_bound      the inner loop of hyphenateWord runs at most 2·(n+2) times in total
-    hyphenate_format / hyphenate_writes / hyphenate_text_spec   (the wrapper; see below)
+    hyphenate_text_spec  THE PROPERTY for text mode: lou_hyphenate over the compiled dictionary leaves exactly
+                         `specText` (the statement above, position by position) and returns 1
+    hyphenate_format / hyphenate_writes(_braille)   format and write range for ANY automaton, both modes
+    hyphenate_braille_format_partial                braille mode format, given inputPos < inlen (C07)
 
   The unrestricted statement is FALSE of the code; the three hypotheses are forced:
     * `WFPats`, clause 2 — a digit in front of a leading '.' (`1.a`): hyphenateWord computes
@@ -37,6 +40,7 @@ import LouProofs.Lemmas.Hyph
 import LouProofs.Lemmas.HyphWalk
 import LouProofs.Lemmas.HyphCompile
 import LouProofs.Lemmas.HyphWrap
+import LouProofs.Lemmas.HyphText
 
 namespace Lou.C17
 open Lou.Hyph List
@@ -218,6 +222,47 @@ theorem hyphenate_writes (dict : Option Dict) (cl : Classes) (inbuf init : List 
   by_cases c : (louHyphenateText dict cl inbuf init).1 = 0
   · rw [h0 c]; exact ⟨rfl, hinit⟩
   · exact ⟨(h1 c).2.oob, (h1 c).2.len⟩
+
+/-- THE PROPERTY, text mode: for every dictionary (`WFPats`, `FitsStates`), every character-class
+    oracle and every text of fewer than 100 characters, lou_hyphenate over the compiled
+    dictionary returns 1 and leaves exactly `specText`: `'0'` at non-letters, at the first
+    letter of a run `'2'` after a hyphen character between letters and `'0'` otherwise, at
+    every other letter `'1'` exactly where the largest digit contributed at that point by the
+    longest-suffix matching rule is odd; then the NUL; nothing else is written. -/
+theorem hyphenate_text_spec (pats : List Pat) (wf : WFPats pats) (fits : FitsStates pats)
+    (cl : Classes) (inbuf init : List Nat) (hinit : init.length = inbuf.length + 1)
+    (hlt : inbuf.length < HYPHSTRING) :
+    louHyphenateText (some (compileDict pats)) cl inbuf init = (1, ⟨specText pats cl inbuf, false⟩) := by
+  have hl : inbuf.length + 3 ≤ MAXSTRING := by simp only [HYPHSTRING, MAXSTRING] at *; omega
+  have hge : ¬ inbuf.length ≥ HYPHSTRING := by omega
+  simp only [louHyphenateText, if_neg hge, textHyphens]
+  obtain ⟨p1, p2, p3⟩ := writeRange_in (List.replicate inbuf.length 48) ⟨init, false⟩ 0 (by simp [hinit])
+  obtain ⟨q1, q2, q3⟩ := write_in ((⟨init, false⟩ : TBuf).writeRange 0 (List.replicate inbuf.length 48)) inbuf.length 0
+    (by rw [p2]; simp [hinit])
+  have tinv : TInv pats cl inbuf 0 (((⟨init, false⟩ : TBuf).writeRange 0 (List.replicate inbuf.length 48)).write inbuf.length 0) := by
+    refine ⟨by rw [q1, p1], by rw [q2, p2]; exact hinit, fun k hk _ => by omega, ?_, ?_, Or.inl rfl⟩
+    · intro k _ hk
+      rw [q3 k, p3 k]
+      have c1 : ¬ k = inbuf.length := by omega
+      have c2 : 0 ≤ k ∧ k < 0 + (List.replicate inbuf.length 48).length := by simp; omega
+      rw [if_neg c1, if_pos c2]
+      simp [List.getD_eq_getElem?_getD, hk]
+    · rw [q3]; simp
+  obtain ⟨b', hb, b1, b2, b3, b4⟩ := wordLoop_spec pats cl (hyph_refines_spec' pats wf fits cl.lower) inbuf hl (inbuf.length + 1) 0 _ (Nat.zero_le _) (by omega) tinv
+  rw [hb]
+  have hdata : b'.data = specText pats cl inbuf := by
+    apply ext_getD _ _ (inbuf.length + 1) b2 (by simp [specText])
+    intro q hq
+    rw [specText_getD]
+    by_cases c : q < inbuf.length
+    · rw [if_pos c]; exact b3 q c
+    · rw [if_neg c]
+      have : q = inbuf.length := by omega
+      rw [this]; exact b4
+  cases b' with
+  | mk data oob =>
+    simp only at b1 hdata
+    rw [b1, hdata]
 
 /-! #### braille mode: the mapping through inputPos -/
 
